@@ -83,12 +83,18 @@ impl CBORTaggedDecodable for Envelope {
                     #[cfg(feature = "encrypt")]
                     tags::TAG_ENCRYPTED => {
                         let encrypted = EncryptedMessage::from_untagged_cbor(item.clone())?;
+                        if encrypted.untagged_cbor() != *item {
+                            bail!(EnvelopeError::InvalidFormat)
+                        }
                         let envelope = Self::new_with_encrypted(encrypted)?;
                         Ok(envelope)
                     },
                     #[cfg(feature = "compress")]
                     tags::TAG_COMPRESSED => {
                         let compressed = Compressed::from_untagged_cbor(item.clone())?;
+                        if compressed.untagged_cbor() != *item {
+                            bail!(EnvelopeError::InvalidFormat)
+                        }
                         let envelope = Self::new_with_compressed(compressed)?;
                         Ok(envelope)
                     },
